@@ -51,7 +51,7 @@ pub fn replay(run: &[Value], _sub: &str) -> Vec<Value> {
 }
 
 // ---- exhaustive small programs -------------------------------------------------------------
-const N_SHAPES: usize = 10;
+const N_SHAPES: usize = 12;
 fn enum_block(i: usize, b: usize, nb: usize, n_subs: usize, shape: usize, ext: &Tid) -> Term<Blk> {
     let me = irgen::blk_tid(i, b);
     let other = irgen::blk_tid(i, if nb > 1 { 1 - b } else { b });
@@ -73,12 +73,15 @@ fn enum_block(i: usize, b: usize, nb: usize, n_subs: usize, shape: usize, ext: &
         6 => vec![j(0, Jmp::Call { target: irgen::sub_tid(i), return_: None })],
         7 => vec![j(0, Jmp::Call { target: ext.clone(), return_: Some(other.clone()) })],
         8 => vec![j(0, Jmp::CallInd { target: irgen::var_expr("RAX"), return_: Some(me.clone()) })],
-        _ => vec![j(0, Jmp::CBranch { target: other.clone(), condition: cond }), j(1, Jmp::Return(irgen::var_expr("RAX")))],
+        9 => vec![j(0, Jmp::CBranch { target: other.clone(), condition: cond }), j(1, Jmp::Return(irgen::var_expr("RAX")))],
+        // conditionally executed calls: the call is the SECOND jump
+        10 => vec![j(0, Jmp::CBranch { target: other.clone(), condition: cond }), j(1, Jmp::Call { target: other_sub, return_: Some(other.clone()) })],
+        _ => vec![j(0, Jmp::CBranch { target: me.clone(), condition: cond }), j(1, Jmp::Call { target: ext.clone(), return_: Some(me.clone()) })],
     };
     Term { tid: me, term: Blk { defs: vec![], jmps, indirect_jmp_targets: hints } }
 }
 
-/// all programs with <= 2 functions x <= 2 blocks over the 10-shape alphabet
+/// all programs with <= 2 functions x <= 2 blocks over the 12-shape alphabet
 fn enumerate(out: &mut Out) -> u64 {
     let ext = irgen::extern_symbol("puts", 0xf020, &["RDI"], Some("RAX"), false);
     let mut count = 0;
@@ -120,6 +123,14 @@ fn enumerate(out: &mut Out) -> u64 {
     count
 }
 
+/// switch on the conditionally executed calls (CBranch + Call / CallInd / CallOther)
+fn cond_calls(k: &mut Knobs) {
+    k.w_cbranch_call_internal = 6;
+    k.w_cbranch_call_extern = 3;
+    k.w_cbranch_callind = 2;
+    k.w_cbranch_callother = 1;
+}
+
 pub fn gen(out: &mut Out, _sub: &str) {
     let mut rng = Rng::new(out.seed ^ 0xC08);
     // (a) well-formed programs straight from the generator: small dense ones and larger ones
@@ -127,6 +138,7 @@ pub fn gen(out: &mut Out, _sub: &str) {
     for n in 0..n_direct {
         let mut r = rng.fork();
         let mut k = Knobs::default();
+        cond_calls(&mut k);
         match n % 4 {
             0 => { k.max_subs = 2; k.max_blocks = 3; }
             1 => { k.max_subs = 3; k.max_blocks = 4; k.w_call_internal = 30; k.pct_last_returns = 90; }
@@ -141,6 +153,7 @@ pub fn gen(out: &mut Out, _sub: &str) {
     for n in 0..n_norm {
         let mut r = rng.fork();
         let mut k = Knobs::default();
+        cond_calls(&mut k);
         if n % 2 == 0 { k.max_subs = 3; k.max_blocks = 4; }
         let raw = irgen::gen_raw_program(&mut r, &k, &RawKnobs::default());
         let mut project = irgen::project_of(raw);
